@@ -22,4 +22,19 @@ PROPS = {
         "min_obligations": {"quick": 4, "thorough": 4},
         "uncovered": [],
     },
+    "C13": {
+        "level": "proof",
+        "trusted_base": [A_KANI, A_BINRW],
+        "assumptions": [],
+        "min_obligations": {"quick": 2, "thorough": 2},
+        "uncovered": [],
+    },
+    "C15": {
+        "verus_units": [],
+        "level": "proof",
+        "trusted_base": [A_KANI, A_BINRW],
+        "assumptions": [],
+        "min_obligations": {"quick": 8, "thorough": 8},
+        "uncovered": [],
+    },
 }
